@@ -13,7 +13,8 @@ cleanup() {
   rm -rf /verif/evidence; mv "$TMP/evidence" /verif/evidence
   for f in $(ls /verif/replays 2>/dev/null); do grep -qx "$f" "$TMP/replays.before" || rm -f "/verif/replays/$f"; done
   rm -rf "$TMP"
-  (cd /verif/harness && cargo build --release --offline >/dev/null 2>&1)
+  python3 /verif/tools/extract.py >/dev/null 2>&1
+  (cd /verif/harness && CARGO_NET_OFFLINE=true CARGO_TARGET_DIR=/verif/.cache/target RUSTFLAGS="--cap-lints warn --cfg qmc_verif" cargo build --release --offline >/dev/null 2>&1)
 }
 git -C /repo apply "$SD/patch.diff" || { rm -rf "$TMP"; exit 2; }
 trap cleanup EXIT PIPE INT TERM
